@@ -214,7 +214,32 @@ STRS   = ["a", "b", "c", "x y", "d"]
 SKEYS  = ["a", "b", "c", "d"]
 
 CTX_PROFILES = ["none", "value-num", "value-num-none", "value-str", "dense-num", "dense-num", "dense-num-none", "dense-mixed",
-                "dense-nested", "sparse-num", "sparse-num", "sparse-mixed", "sparse-none"]
+                "dense-nested", "sparse-num", "sparse-num", "sparse-mixed", "sparse-none", "dense-nested-cat", "sparse-nested-cat"]
+
+CAT_LEVELS = ["u", "v", "w"]
+def gen_layout(rng, depth=0, need_cat=True):
+    """a column layout: 'num' | 'cat' | ['list'|'tuple', [layouts]] | ['dict', [[key, layout]]] -- the SAME layout is used for the
+    column in every row (coba locates categoricals by looking at the first row).  need_cat: some leaf is a categorical.
+    depth 0 is always a container, depth 1 sometimes (categorical two levels down), depth 2 never."""
+    if not (depth == 0 or (depth == 1 and rng.random() < .25)):
+        return "cat" if need_cat else rng.choice(["num", "num", "cat"])
+    shape = rng.choice(["list", "list", "dict", "dict", "tuple"])
+    w = rng.randint(1, 3); at = rng.randrange(w)
+    subs = [gen_layout(rng, depth+1, need_cat and j == at) for j in range(w)]
+    if shape == "dict": return ["dict", [[k, sub] for k, sub in zip(["p", "q", "r"], subs)]]
+    return [shape, subs]
+
+def gen_from_layout(rng, lay):
+    if lay == "num": return rng.choice(NUMS)
+    if lay == "cat": return CAT(rng.choice(CAT_LEVELS), CAT_LEVELS)
+    if lay[0] == "dict":  return D([(k, gen_from_layout(rng, sub)) for k, sub in lay[1]])
+    vals = [gen_from_layout(rng, sub) for sub in lay[1]]
+    return T(*vals) if lay[0] == "tuple" else vals
+
+def layout_name(lay):
+    if isinstance(lay, str): return lay
+    if lay[0] == "dict": return "{" + ",".join(layout_name(sub) for _, sub in lay[1]) + "}"
+    return ("(%s)" if lay[0] == "tuple" else "[%s]") % ",".join(layout_name(sub) for sub in lay[1])
 
 def gen_contexts(rng, n, profile):
     """-> (encoded contexts, info)"""
@@ -226,6 +251,29 @@ def gen_contexts(rng, n, profile):
         if n and rng.random() < .7: c[0] = rng.choice(NUMS)
         return c, info
     if profile == "value-str": return [rng.choice(STRS) for _ in range(n)], info
+    if profile == "dense-nested-cat":
+        # categoricals one (or two) levels down inside a list / dict / tuple cell of a dense context
+        w = rng.randint(1, 3); info["width"] = w
+        at = rng.randrange(w)
+        lays = [gen_layout(rng) if j == at else rng.choice(["num", "num", "cat", gen_layout(rng, 0, False)]) for j in range(w)]
+        # the nested cell is a container (a bare 'cat' would be the flat case)
+        tup = rng.random() < .25
+        info["tuple"] = tup; info["cols"] = [layout_name(l) for l in lays]
+        rows = [[gen_from_layout(rng, l) for l in lays] for _ in range(n)]
+        return ([T(*r) for r in rows] if tup else rows), info
+    if profile == "sparse-nested-cat":
+        # a sparse context whose values include containers holding categoricals; those keys are present in every row
+        info["keys"] = "str"
+        fixed = {"c": gen_layout(rng)}
+        if rng.random() < .4: fixed["e"] = rng.choice(["cat", gen_layout(rng, 0, False)])
+        info["cols"] = {k: layout_name(l) for k, l in fixed.items()}
+        out = []
+        for i in range(n):
+            ks = [k for k in SKEYS[:2] if rng.random() < .6]
+            items = [(k, rng.choice(NZNUMS)) for k in ks] + [(k, gen_from_layout(rng, l)) for k, l in fixed.items()]
+            if rng.random() < .5: items.reverse()
+            out.append(D(items))
+        return out, info
     if profile.startswith("dense"):
         w = rng.randint(1, 4); info["width"] = w
         tup = rng.random() < .35 and profile != "dense-num-none"
@@ -262,7 +310,7 @@ def gen_contexts(rng, n, profile):
         return out, info
     raise ValueError(profile)
 
-ACT_PROFILES = ["onehot", "onehot", "str", "str", "cat", "int", "float01", "dense", "sparse"]
+ACT_PROFILES = ["onehot", "onehot", "str", "str", "cat", "int", "float01", "dense", "sparse", "nested-cat"]
 def gen_actions(rng, n, profile):
     k = rng.randint(2, 4)
     vary = rng.choice(["const", "const", "perm", "size"]) if profile in ("str", "int", "cat") else rng.choice(["const", "const", "perm"])
@@ -271,6 +319,11 @@ def gen_actions(rng, n, profile):
     elif profile == "cat": lv = ["p", "q", "r", "s"][:k]; base = [CAT(l, lv) for l in lv]
     elif profile == "int": base = rng.choice([[0, 1, 2, 3], [3, 1, 2, 7], [1, 0, 5, 2]])[:k]
     elif profile == "float01": base = [0.0, 0.5, 1.0, 0.25][:k]
+    elif profile == "nested-cat":
+        # every action is a dense row with a categorical one level down: [[cat, x], y] / [{'p': cat}, y]
+        lv = ["p", "q", "r", "s"][:k]; inner = rng.choice(["list", "list", "dict"])
+        mk = (lambda l, x: [CAT(l, lv), x]) if inner == "list" else (lambda l, x: D([("p", CAT(l, lv)), ("q", x)]))
+        base = [[mk(l, rng.choice(NUMS)), rng.choice(NUMS)] for l in lv]
     out = []
     for i in range(n):
         if profile == "dense":  a = [[rng.choice(NUMS), rng.choice(NUMS)] for _ in range(k)]
@@ -338,7 +391,8 @@ def gen_src_lambda(rng):
 
 def gen_src_supxy(rng):
     n = rng.choice([1, 2, 3, 4, 5, 6, 8, 10, 12, 26, 30])
-    cp = rng.choice(["value-num", "dense-num", "dense-num", "dense-mixed", "dense-num-none", "sparse-num", "sparse-mixed", "value-str", "dense-nested"])
+    cp = rng.choice(["value-num", "dense-num", "dense-num", "dense-mixed", "dense-num-none", "sparse-num", "sparse-mixed", "value-str", "dense-nested",
+                     "dense-nested-cat", "dense-nested-cat", "sparse-nested-cat"])
     X, ci = gen_contexts(rng, n, cp)
     lt = rng.choice(["str", "str", "int-c", "num-r", "cat", "multi", "listed"])
     if lt == "str":     Y = [rng.choice(["a", "b", "c"]) for _ in range(n)]; label_type = rng.choice([None, "c", "C"]); acts = "str"
@@ -358,10 +412,10 @@ def gen_src_supsrc(rng):
     is_r = not isinstance(labels[0], str)
     take = rng.choice([None, None, 1, 3, n, n+2])
     if form == "pairs":
-        X, ci = gen_contexts(rng, n, rng.choice(["dense-num", "sparse-num", "value-num", "dense-mixed"]))
+        X, ci = gen_contexts(rng, n, rng.choice(["dense-num", "sparse-num", "value-num", "dense-mixed", "dense-nested-cat", "sparse-nested-cat"]))
         rows = [T(x, y) for x, y in zip(X, labels)]; label_col = None
     elif form == "dense-labelcol":
-        X, ci = gen_contexts(rng, n, rng.choice(["dense-num", "dense-mixed", "dense-num-none"]))
+        X, ci = gen_contexts(rng, n, rng.choice(["dense-num", "dense-mixed", "dense-num-none", "dense-nested-cat"]))
         w = ci["width"]; label_col = rng.randrange(w+1)
         X = [x["$t"] if isinstance(x, dict) else x for x in X]
         rows = [x[:label_col] + [y] + x[label_col:] for x, y in zip(X, labels)]
@@ -566,6 +620,7 @@ def gen_filter(rng, st):
         if st["ctx"].startswith("sparse"): st["ctx"] = "densified"
     elif name == "Flatten":
         if st["ctx"] == "dense-nested": st["ctx"] = "dense-num"; st["width"] = 1
+        if st["ctx"] == "dense-nested-cat": st["ctx"] = "dense-mixed"; st.pop("width", None)
     elif name == "Binary": pass
     elif name == "Grounded": st["fb"] = True; st["rw"] = "callable"
     elif name == "Logged": st["logged"] = True
@@ -582,26 +637,38 @@ def gen_filter(rng, st):
     return {"f": name, "a": a}
 
 OPS_ALL = ["FULL", "PARTIAL", "PARAMS", "MATERIALIZE", "CACHE", "CHUNK", "PICKLE", "SAVE"]
+def op_peek(op):
+    """position (number of interactions pulled so far) at which params are looked up INSIDE the read, or None.
+    ["FULL"] / ["FULL", j] ; ["PARTIAL", k, how] / ["PARTIAL", k, how, j].  j == 0: after read() was called, before the first next()"""
+    if op[0] == "FULL" and len(op) > 1: return op[1]
+    if op[0] == "PARTIAL" and len(op) > 3: return op[3]
+    return None
+def op_without_peek(op):
+    return ["FULL"] if op[0] == "FULL" else op[:3]
+
 def gen_history(rng, view, n, length):
     ops = []
+    def full():
+        return ["FULL"] + ([rng.choice([0, 0, 0, 1, 2, max(n-1, 0), n])] if rng.random() < .3 else [])
     for _ in range(length):
         r = rng.random()
-        if r < .30: ops.append(["FULL"])
+        if r < .30: ops.append(full())
         elif r < .55:
             k = rng.choice([0, 1, 1, 2, 3, 5, 24, 25, 26, max(n-1, 0), n, n+3])
-            ops.append(["PARTIAL", k, rng.choice(["close", "drop"])])
-        elif r < .67: ops.append(["PARAMS"])
+            ops.append(["PARTIAL", k, rng.choice(["close", "drop"])] + ([rng.choice([0, 0, 0, 1, k])] if rng.random() < .3 else []))
+            if ops[-1][3:] and ops[-1][3] > k: ops[-1][3] = k
+        elif r < .70: ops.append(["PARAMS"])
         else:
             tr = ["CACHE", "CHUNK", "PICKLE"] + (["MATERIALIZE", "SAVE", "SAVE"] if view == "final" else ["PICKLE"])
             ops.append([rng.choice(tr)])
-    if rng.random() < .5: ops.insert(0, ["FULL"])
+    if rng.random() < .5: ops.insert(0, full())
     ops.append(["FULL"])
     if rng.random() < .5: ops.append(["PARAMS"])
     return ops
 
 def gen_case(rng, tier="quick"):
     source, st = gen_source(rng)
-    st = dict(st)
+    st = dict(st); st0 = dict(st)
     n = st.get("n", 5)
     L = rng.choice([0, 1, 1, 2, 2, 3, 3, 4, 5, 6])
     chain = []
@@ -610,7 +677,8 @@ def gen_case(rng, tier="quick"):
         if f: chain.append(f)
     view = rng.choice(["raw", "final", "final"])
     hl = 5 if tier == "quick" else rng.randint(3, 8)
-    return {"source": source, "chain": chain, "view": view, "history": gen_history(rng, view, n, hl - 1)}
+    shape = {"ctx": st0.get("ctx"), "acts": st0.get("acts")}          # of the source, before the chain (for reach counters only)
+    return {"source": source, "chain": chain, "view": view, "history": gen_history(rng, view, n, hl - 1), "shape": shape}
 
 # =================================================================================================== builders
 class ListEnv:
